@@ -573,6 +573,9 @@ class FiltersSet:
         for f in self.filters:
             if f["name"] != name:
                 continue
+            if not f["enabled"] and self.__isdisabled(f["content"]):
+                # already disabled
+                return True
             ifcontrol.addchild(f["content"])
             f["content"] = ifcontrol
             f["enabled"] = False
